@@ -62,6 +62,8 @@ MUTS = {
  "backend-timeout-off": ("src/h1.c", "        if (cur_ts - con->write_request_ts > r->conf.max_write_idle) {", "        if (cur_ts - con->write_request_ts > 100000 + r->conf.max_write_idle) {", ["C13"]),
  "h2-rst-ignored": ("src/h2.c", "        r->state = CON_STATE_ERROR;\n        r->x.h2.state = H2_STATE_CLOSED;\n\n        /* attempt to detect HTTP/2 rapid reset attack", "        r->x.h2.state = H2_STATE_CLOSED;\n\n        /* attempt to detect HTTP/2 rapid reset attack", ["C05", "C06"]),
  "deflate-cache-in-place": ("src/mod_deflate.c", "    hctx->cache_fn[fnlen] = '.';\n", "    hctx->cache_fn[fnlen] = '\\0';\n", ["C19"]),
+ "dav-put-in-place": ("src/mod_webdav.c", "    const char *pathtemp = tmpb->ptr;\n", "    const char *pathtemp = r->physical.path.ptr;\n", ["C18"]),
+ "short-write-accounting": ("src/network_write.c", "        chunkqueue_mark_written(cq, wr);\n        return rc;", "        chunkqueue_mark_written(cq, (wr == toSend || wr < 2) ? wr : wr - 1);\n        return rc;", ["C04"]),
  "else-link": ("src/configparser.y", "    C->prev = B;\n    B->next = C;\n    A = C;", "    C->prev = B;\n    A = C;", ["C14"]),
 }
 
